@@ -3,7 +3,9 @@
 use std::io::Write;
 use std::process::{Command, Stdio};
 
-pub const CLI_BIN: &str = "/verif/.build/repo-cli/debug/chiritori";
+pub fn cli_bin() -> String {
+    format!("{}/.build/repo-cli/debug/chiritori", crate::engine::verif_dir())
+}
 
 pub struct CliOut {
     pub status: i32,
@@ -13,7 +15,7 @@ pub struct CliOut {
 
 /// Run the binary. `envs`: (name, Some(value)) sets, (name, None) removes. Err = could not run at all.
 pub fn run_cli(args: &[String], stdin: Option<&[u8]>, envs: &[(&str, Option<&str>)], cwd: Option<&std::path::Path>) -> Result<CliOut, String> {
-    let mut cmd = Command::new(CLI_BIN);
+    let mut cmd = Command::new(cli_bin());
     cmd.args(args).stdout(Stdio::piped()).stderr(Stdio::piped());
     cmd.stdin(if stdin.is_some() { Stdio::piped() } else { Stdio::null() });
     cmd.env_remove("RUST_BACKTRACE");
@@ -30,7 +32,7 @@ pub fn run_cli(args: &[String], stdin: Option<&[u8]>, envs: &[(&str, Option<&str
     if let Some(d) = cwd {
         cmd.current_dir(d);
     }
-    let mut child = cmd.spawn().map_err(|e| format!("cannot start {CLI_BIN}: {e}"))?;
+    let mut child = cmd.spawn().map_err(|e| format!("cannot start {}: {e}", cli_bin()))?;
     if let Some(data) = stdin {
         let mut si = child.stdin.take().unwrap();
         let data = data.to_vec();
@@ -47,7 +49,7 @@ pub fn run_cli(args: &[String], stdin: Option<&[u8]>, envs: &[(&str, Option<&str
 }
 
 pub fn cli_available() -> bool {
-    std::path::Path::new(CLI_BIN).exists()
+    std::path::Path::new(&cli_bin()).exists()
 }
 
 /// RFC 3339 text of instant `epoch` at UTC offset `ofs_secs`
